@@ -48,6 +48,10 @@ func (m *c16Mon) tick() int { *m.clock++; return *m.clock }
 func (m *c16Mon) callback(s mqtt.ConnState, err error) {
 	m.evs = append(m.evs, c16Ev{s, err, m.tick()})
 	vrt.Event(unsafe.Pointer(m), uint64(s))
+	if m.cli != nil {
+		// an observer callback looks at the connection it is told about
+		_, _, _ = m.cli.Done(), m.cli.Err(), m.cli.Stats()
+	}
 }
 
 func (m *c16Mon) sampleHealthy(where string) {
@@ -171,7 +175,9 @@ func runC16(c *Ctx) {
 
 // c16Base: BaseClient level; endings alone, sequenced and racing.
 func c16Base(c *Ctx) {
-	endings := []string{"none", "peer-close", "local-close", "malformed"}
+	// "*-write-fails": the peer sends a QoS 1 / QoS 2 message and the client's acknowledgement
+	// (PUBACK / PUBREC / the PUBCOMP after PUBREL) cannot be written any more
+	endings := []string{"none", "peer-close", "local-close", "malformed", "puback-write-fails", "pubrec-write-fails", "pubcomp-write-fails"}
 	disc := []string{"none", "disconnect"}
 	orders := []string{"end-first", "disconnect-first", "racing"}
 	connacks := []string{"accept", "refuse", "peer-closes-instead"}
@@ -241,6 +247,27 @@ func c16Base(c *Ctx) {
 										m.endAt = m.tick()
 									}
 									s.Conn.Inject([]byte{0xF0, 0x00})
+								case "puback-write-fails", "pubrec-write-fails":
+									vrt.Yield("peer sends a message, then stops taking writes")
+									if m.endAt < 0 {
+										m.endAt = m.tick()
+									}
+									s.Conn.FailWrites = true
+									q := byte(1)
+									if e == "pubrec-write-fails" {
+										q = 2
+									}
+									s.Conn.Send(env.EncPublish("t", []byte("x"), q, 7, false, false), "")
+								case "pubcomp-write-fails":
+									// PUBLISH q2 -> PUBREC goes through; with the PUBREL the link stops taking writes
+									s.Conn.Send(env.EncPublish("t", []byte("x"), 2, 7, false, false), "")
+									vrt.Settle()
+									vrt.Yield("peer sends PUBREL, then stops taking writes")
+									if m.endAt < 0 {
+										m.endAt = m.tick()
+									}
+									s.Conn.FailWrites = true
+									s.Conn.Send(env.EncAck(env.PUBREL, 7), "")
 								}
 							}
 							applyDisc := func() {
